@@ -1,6 +1,6 @@
 (* Props/C15.v — malformed input is reported with the right line number. *)
 From Coq Require Import ZArith List Bool Arith String.
-From BNP Require Import Base.Prims Model.C01 Model.C15 Proofs.C01_delim Proofs.C01_lines Proofs.C15 Proofs.C15_oneline.
+From BNP Require Import Base.Prims Model.C01 Model.C15 Proofs.C01_delim Proofs.C01_lines Proofs.C15 Proofs.C15_oneline Gen.C01 Bridge.C01.
 Import ListNotations.
 
 (* T1 (delimited formats, any column typing): for every file, every chunk size >= 1 and both reader modes,
@@ -66,6 +66,22 @@ Theorem C15_oneline_line_chunk_independent :
     l1 = l2.
 Proof. exact oneline_line_chunk_independent. Qed.
 Print Assumptions C15_oneline_line_chunk_independent.
+
+(* Source tie for the line bookkeeping (shared with C01: Gen/C01.v is regenerated from /repo on every run): the
+   reported line is the local line plus the lines delivered before, the marker violation of record i+1 is reported as
+   (i+1)*n, the '+' violation of record j as 2 + j*n, a first-record violation as 0, a parse error in row i as
+   (lines before) + i. *)
+Theorem C15_source_tie :
+  (forall l0 lines : nat, Z.of_nat (m_reported l0 lines) = gen_reported_line (Z.of_nat l0) (Z.of_nat lines))
+  /\ (forall l nl : nat, Z.of_nat (m_lines_after l nl) = gen_lines_after (Z.of_nat l) (Z.of_nat nl))
+  /\ (forall i n : nat, Z.of_nat (m_header_line i n) = gen_header_line (Z.of_nat i) (Z.of_nat n))
+  /\ (forall j n : nat, Z.of_nat (m_plus_line j n) = gen_plus_line (Z.of_nat j) (Z.of_nat n))
+  /\ gen_first_record_line = 0%Z
+  /\ (forall i before : nat, Z.of_nat (before + i) = gen_parse_error_line (Z.of_nat i) (Z.of_nat before)).
+Proof.
+  exact (conj b_reported_line (conj b_lines_after (conj b_header_line (conj b_plus_line (conj b_first_record_line b_parse_error_line))))).
+Qed.
+Print Assumptions C15_source_tie.
 
 (* non-vacuity: a 4-line BED whose third line (line 2) has a non-numeric start, chunk size 7, gzip mode:
    the model reader completes and the report is line 2 *)
